@@ -60,6 +60,7 @@ async def process_resource_event(
         memory.daemons_memory.live_fresh_body._replace_with(raw_body)
     if raw_type == 'DELETED':
         await memories.forget(raw_body)
+        await daemons.stop_daemons_of_gone_object(settings=settings, memory=memory.daemons_memory)
 
     # Convert to a heavy mapping-view wrapper only now, when heavy processing begins.
     # Raw-event streaming, queueing, and batching use regular lightweight dicts.
